@@ -195,6 +195,12 @@ def cmp_rule(ck, mod, label, only_over=False):
     paths = ex.run()
     rets = [p for p in paths if p.end[0] == "ret"]
     datab = [e for p in paths for e in p.events if e[0] in ("cond-data",)]
+    def _rw(q):
+        return q.end[1] if irx.is_word(q.end[1]) else ex.word(q.end[1], 32, q)
+    if len(rets) > 1 and len(rets) == len(paths) and not datab and all(_rw(q) == _rw(rets[0]) for q in rets[1:]):
+        # the paths differ only in public tests (alignment of the plaintext buffer with nothing to wipe) and return the same term over the
+        # tag bytes: one verdict function, decided on the first path
+        paths = rets = rets[:1]
     if len(paths) != 1 or len(rets) != 1:
         # the verdict may still be the right function of the tags (an early exit returns the same value): that is a timing
         # matter (C07), not a verdict matter; the single-summary comparison below cannot decide it
